@@ -86,173 +86,396 @@ def rule_nowrap(ctx, rep):
     rep.floor('R-NOWRAP', n, 6)
 
 
+class LimitTok:
+    pass
+
+
+def _limit_flow(ctx, cfg, f, limit):
+    """Interpret one Markdown render method with the limit symbolic (or None); every other method that
+    takes a limit is replaced by a recorder. Returns per path: budgets handed on, prefix_lines calls,
+    truthiness tests applied to a value computed from the limit, or ('error', why)."""
+    from ..interp import (Interp, Obj, enumerate_paths, Raised, GenVal, Unknown, AbstractValue, InterpError,
+                          LoopTruncated, PathLimit)
+    from ..domains import _AbsBound
+    from ..affine import LenStr
+    from .. import templates as T
+    from .c08 import get_facts
+    model = ctx.model
+    facts = get_facts(ctx)
+
+    class Lines(AbstractValue):
+        """Lines produced by rendering children under a recorded budget."""
+        def __init__(self, budget):
+            self.budget = budget
+
+        def abs_truth(self, interp):
+            return interp.decide(('child-lines-nonempty', id(self)), fresh=True)
+
+        def abs_iter(self, interp):
+            return iter([self])
+
+        def abs_binop(self, interp, op, other, reflected):
+            return self
+
+    class Kids(AbstractValue):
+        def abs_truth(self, interp):
+            return interp.decide(('kids-nonempty', id(self)), fresh=True)
+
+        def abs_iter(self, interp):
+            return iter([Tok(None)])
+
+        def abs_len(self, interp):
+            return Unknown('len(children)')
+
+    class Tok(AbstractValue):
+        def __init__(self, cls):
+            self.cls = cls
+            self.cache = {}
+
+        def abs_getattr(self, interp, name):
+            if name not in self.cache:
+                self.cache[name] = self._attr(name)
+            return self.cache[name]
+
+        def _attr(self, name):
+            if name == 'children':
+                return Kids()
+            kinds = set()
+            if self.cls is not None:
+                for inst in facts.instances.get(self.cls.qualname, facts.instances.get(self.cls, [])) or []:
+                    v = inst.attrs.get(name, None)
+                    kinds.add('str' if isinstance(v, str) or type(v).__name__ in ('AbsStr', 'Taint') else
+                              'int' if (isinstance(v, int) and not isinstance(v, bool)) or type(v).__name__ in ('AbsInt', 'Aff') else 'other')
+            if kinds == {'str'}:
+                return LenStr(Aff.sym('len(token.%s)' % name), label='token.' + name)
+            if kinds == {'int'}:
+                return Aff.sym('token.%s' % name)
+            return Unknown('token.' + name)
+
+    params = f.params()
+    tok_cls = None
+    for k, v in cfg.render_map.items():
+        if v is f and model.has_cls('block_token.' + k):
+            tok_cls = model.cls('block_token.' + k)
+    out = []
+
+    def run_(oracle):
+        it = Interp(model, loop_bound=2, while_bound=4)
+        it.reset_run(oracle)
+        T.install_string_hooks(it)
+        rec = {'budgets': [], 'prefix': [], 'truth': []}
+        obj = T.clone_obj(cfg.obj)
+        Aff.on_truth = lambda a: rec['truth'].append(repr(a)) if LIMIT in a.terms else None
+        for name, g in cfg.cls_methods_with_limit:
+            if g is f or not _produces_lines(cfg, g):
+                continue        # arithmetic helpers on the limit are interpreted, not stubbed
+
+            def hook(interp, fi, args, kwargs, g=g):
+                ps = g.params()
+                b = kwargs.get(LIMIT, args[ps.index(LIMIT)] if LIMIT in ps and ps.index(LIMIT) < len(args) else 'MISSING')
+                rec['budgets'].append((g.name, b))
+                return Lines(b)
+            it.func_hooks[g.qualname] = hook
+        pl = cfg.cls.lookup('prefix_lines')
+        if pl is not None and pl[0] == 'method' and pl[1] is not f:
+            def h_pl(interp, fi, args, kwargs):
+                from ..model import ClassInfo as _CI
+                a = list(args)
+                ps = pl[1].params()
+                if pl[1].kind in ('classmethod', 'method') and a and (isinstance(a[0], _CI) or a[0] is obj):
+                    a, ps = a[1:], ps[1:]
+                elif pl[1].kind in ('classmethod', 'method'):
+                    ps = ps[1:]
+                vals = dict(zip(ps, a))
+                vals.update(kwargs)
+                rec['prefix'].append((vals.get('lines'), vals.get('first_line_prefix'), vals.get('following_line_prefix')))
+                return vals.get('lines')
+            it.func_hooks[pl[1].qualname] = h_pl
+        args = []
+        for p_ in params[1:]:
+            if p_ == LIMIT:
+                args.append(limit)
+            elif p_ in ('token',):
+                args.append(Tok(tok_cls))
+            else:
+                args.append(Unknown(p_))
+        try:
+            r = it.call_function(f, [obj] + args, {})
+            if isinstance(r, GenVal):
+                r = list(r.items)
+        except Raised as e:
+            rec['raised'] = e.exc.kind
+        except (LoopTruncated,):
+            rec['raised'] = 'loop bound'
+        finally:
+            Aff.on_truth = None
+        return rec
+    try:
+        for trace, rec in enumerate_paths(run_, 256):
+            out.append(rec)
+    except InterpError as e:
+        Aff.on_truth = None
+        return ('error', '%s: %s' % (type(e).__name__, e))
+    return ('ok', out)
+
+
+def _length_of(v):
+    """Affine length of a string value built from constants and pieces of known length
+    (concatenation, ''.join, str.format, f-strings), or None."""
+    from ..affine import LenStr
+    from .. import templates as T
+    if isinstance(v, str):
+        return Aff({}, len(v))
+    if isinstance(v, LenStr):
+        return v.length
+    if isinstance(v, T.Skel):
+        total = Aff({}, 0)
+        for p_ in v.parts:
+            l = _length_of(p_.value if isinstance(p_, T.Hole) else p_)
+            if l is None:
+                return None
+            total = total.add(l)
+        return total
+    return None
+
+
+def _produces_lines(cfg, g):
+    """A method that takes the limit and renders under it: a render_map target, a generator, or one that
+    hands the limit to another method taking one."""
+    if g in {v for v in cfg.render_map.values() if isinstance(v, FuncInfo)}:
+        return True
+    names = {n_ for n_, _ in cfg.cls_methods_with_limit}
+    for n in walk_function(g.node):
+        if isinstance(n, (ast.Yield, ast.YieldFrom)):
+            return True
+        if isinstance(n, ast.Call) and isinstance(n.func, ast.Attribute) and n.func.attr in names and n.func.attr != g.name:
+            return True
+    return False
+
+
+def _methods_with_limit(cfg):
+    out = []
+    seen = set()
+    for c in cfg.cls.mro():
+        if not hasattr(c, 'methods'):
+            continue
+        for name, g in c.methods.items():
+            if name in seen:
+                continue
+            seen.add(name)
+            if LIMIT in [a.arg for a in g.node.args.args + g.node.args.kwonlyargs]:
+                out.append((name, g))
+    return out
+
+
 def rule_budget(ctx, rep):
+    """Every Markdown render method that takes the limit is interpreted with the limit symbolic; the budget it
+    hands to whatever renders its children must be the limit minus the length of each prefix it puts in front
+    of those children's lines (or the limit itself when it adds none); with no limit, no budget."""
+    from ..affine import LenStr
+    model = ctx.model
+    rep.rule('R-BUDGET', 'child budget = limit - len(prefix) for every prefix put in front of the children\'s lines; None stays None')
+    n = 0
+    undecided = []
+    for cfg in [c for c in ctx.configs() if c.label == 'MarkdownRenderer' and c.error is None]:
+        cfg.cls_methods_with_limit = _methods_with_limit(cfg)
+        targets = {v for v in cfg.render_map.values() if isinstance(v, FuncInfo)}
+        for name, f in sorted(cfg.cls_methods_with_limit):
+            if f not in targets:
+                continue        # helpers that pass the limit along are stubbed; R-FILL / R-SENTINEL look inside them
+            unit = model.unit_of(f)
+            res = _limit_flow(ctx, cfg, f, Aff.sym(LIMIT))
+            if res[0] == 'error':
+                undecided.append('%s [%s]: %s' % (f.short, cfg.key(), res[1]))
+                continue
+            paths = res[1]
+            if not any(r['budgets'] for r in paths):
+                continue        # hands no budget on (leaf block): R-NOWRAP's business
+            rep.instance('R-BUDGET')
+            problems = {}
+            for r in paths:
+                for callee, b in r['budgets']:
+                    ba = Aff.lift(b) if b is not None and not isinstance(b, str) else None
+                    # the method renders one token: what it prefixes are the lines of that token's children
+                    pre = r['prefix']
+                    if not pre:
+                        n += 1
+                        # nothing in front of the children's lines: the limit itself, or None for a block kind that
+                        # is deliberately not re-broken (which kinds those are is R-NOWRAP's business)
+                        if b is not None and (ba is None or ba != Aff.sym(LIMIT)):
+                            problems['budget-without-prefix'] = ('hands %s the budget %r although it puts nothing in front of the lines '
+                                                                 '(expected the limit itself)' % (callee, b))
+                        continue
+                    for lines, p1, p2 in pre:
+                        for which, p_ in (('first-line', p1), ('following-line', p2 if p2 is not None else p1)):
+                            n += 1
+                            plen = _length_of(p_)
+                            if plen is None:
+                                problems['prefix-length-unknown'] = 'the length of the %s prefix %r cannot be determined' % (which, p_)
+                                continue
+                            want = Aff.sym(LIMIT).add(plen, -1)
+                            if ba is None or ba != want:
+                                problems['prefix:%s' % which] = ('children get the budget %r but the %s prefix has length %r: lines come '
+                                                                 'out %s than the limit' % (b, which, plen, 'longer or shorter'))
+            # without a limit nothing may turn into one
+            res0 = _limit_flow(ctx, cfg, f, None)
+            if res0[0] == 'ok':
+                for r in res0[1]:
+                    for callee, b in r['budgets']:
+                        n += 1
+                        if b is not None:
+                            problems['none-becomes-budget'] = 'with no limit, %s still gets the budget %r' % (callee, b)
+                    if r.get('raised'):
+                        problems['raises-without-limit'] = 'raises %s when there is no limit' % r['raised']
+            rep.obligation('R-BUDGET', not problems, {'method': f.short, 'config': cfg.key(), 'paths': len(paths),
+                                                      'problems': sorted(problems)})
+            for k, msg in sorted(problems.items()):
+                rep.find('R-BUDGET', f.short, k, '%s: %s' % (f.short, msg), loc(unit, f.node))
+    rep.extra['budget_undecided'] = undecided
+    rep.floor('R-BUDGET', n, 6)
+
+
+def _simulate_fill(ctx, words, limit_value=None):
+    """fragments_to_lines over  <w1> ' ' <w2> ' ' ...  (single non-blank words) with an unknown limit.
+    Yields (trace, lines)."""
+    from ..interp import Interp, Obj, enumerate_paths, Raised, GenVal
+    from ..domains import AbsInt
+    from .. import templates as T
     model = ctx.model
     cfg = md_config(ctx)
-    rep.rule('R-BUDGET', 'child budget = limit - len(prefix) for every prefix handed to prefix_lines')
-    n = 0
-    for name, f in sorted(cfg.cls.methods.items()):
-        calls = [c for c in walk_function(f.node) if isinstance(c, ast.Call) and isinstance(c.func, ast.Attribute)
-                 and c.func.attr == 'prefix_lines']
-        if not calls or LIMIT not in f.params():
+    frag = model.classes.get('mistletoe.markdown_renderer.Fragment')
+    if frag is None:
+        raise AnalysisError('anchor vanished: markdown_renderer.Fragment')
+
+    def run_(oracle):
+        it = Interp(model, loop_bound=len(words) + 1, while_bound=2 * len(words) + 2)
+        it.reset_run(oracle)
+        T.install_string_hooks(it)
+        it.intrinsics['rx.split'] = lambda interp, a, k: ([a[1]] if T.is_abstract(a[1]) else a[0].compiled().split(a[1]))
+        fr = []
+        for i, nm in enumerate(words):
+            w = T.Taint(nm)
+            w.word = True
+            if i:
+                fr.append(Obj(frag, {'text': ' ', 'wordwrap': True}))
+            fr.append(Obj(frag, {'text': w, 'wordwrap': True}))
+        try:
+            g = it.call(it.getattr(cfg.cls, 'fragments_to_lines'), [fr], {'max_line_length': AbsInt('limit')})
+        except Raised as e:
+            return ('raise', e.exc.kind)
+        return ('ok', g.items if isinstance(g, GenVal) else g)
+    return enumerate_paths(run_, 2000)
+
+
+def _fits_decided(trace, labels):
+    """Was  len(<text made of exactly these words>) <= limit  (or < limit) decided to hold on this path?"""
+    want = ('int', ('len(skel)', tuple(sorted(labels))))
+    for k, v in trace:
+        if not (isinstance(k, tuple) and len(k) == 5 and k[0] == 'intcmp'):
             continue
-        # only containers: methods that also render child blocks with a budget
-        child = [c for c in walk_function(f.node) if isinstance(c, ast.Call) and isinstance(c.func, ast.Attribute)
-                 and c.func.attr == 'blocks_to_lines']
-        if not child:
+        _, op, a, b, reflected = k
+        if a == want and b == ('int', 'limit'):
+            pass
+        elif b == want and a == ('int', 'limit'):
+            reflected = not reflected
+        else:
             continue
-        unit = model.unit_of(f)
-        rep.instance('R-BUDGET')
-        defs = single_defs(f.node)
-        budget = None
-        for c in child:
-            for kw in c.keywords:
-                if kw.arg == LIMIT:
-                    budget = kw.value
-            if budget is None and len(c.args) > 1:
-                budget = c.args[1]
-        if budget is None:
-            rep.find('R-BUDGET', f.short, 'no-budget', '%s renders its children without passing a budget' % f.short, loc(unit, f.node))
-            continue
-        b = budget
-        if isinstance(b, ast.Name) and b.id in defs:
-            b = defs[b.id]
-        if isinstance(b, ast.IfExp):
-            # "limit - k if <limit present> else None"
-            arms = [x for x in (b.body, b.orelse) if not (isinstance(x, ast.Constant) and x.value is None)]
-            if len(arms) != 1:
-                raise AnalysisError('%s: budget expression %s not recognised' % (f.short, ast.unparse(b)))
-            b = arms[0]
-        defs2 = dict(defs)
-        baff = affine_of(b, defs2)
-        for c in calls:
-            for i, p in enumerate(c.args[1:3]):
-                n += 1
-                plen = str_len_of(p, defs2)
-                if plen is None:
-                    rep.obligation('R-BUDGET', False, {'method': f.short, 'prefix': ast.unparse(p)})
-                    rep.find('R-BUDGET', f.short, 'prefix%d-length-unknown' % (i + 1),
-                             'length of prefix %s cannot be determined' % ast.unparse(p), loc(unit, c))
-                    continue
-                want = Aff.sym(LIMIT).add(plen, -1)
-                ok = baff == want
-                rep.obligation('R-BUDGET', ok, {'method': f.short, 'prefix': ast.unparse(p)[:60], 'len(prefix)': repr(plen),
-                                                'child_budget': repr(baff)})
-                if not ok:
-                    rep.find('R-BUDGET', f.short, 'prefix%d' % (i + 1),
-                             '%s: children get the budget %r but the %s prefix %s has length %r: lines come out %s'
-                             % (f.short, baff, 'first-line' if i == 0 else 'following-line', ast.unparse(p)[:50], plen,
-                                'longer than the limit' if True else ''), loc(unit, c))
-    rep.floor('R-BUDGET', n, 3)
+        if reflected:
+            op = {'Lt': 'Gt', 'LtE': 'GtE', 'Gt': 'Lt', 'GtE': 'LtE'}.get(op, op)
+        if (op in ('LtE', 'Lt') and v is True) or (op in ('Gt', 'GtE') and v is False):
+            return True
+    return False
 
 
 def rule_fill(ctx, rep):
+    """Decided on the interpretation of make_words + fragments_to_lines over three and four single words
+    separated by spaces, limit unknown: on every path, every output line that holds more than one word was
+    tested against the limit and found to fit (so only a single word can exceed it), every word is emitted
+    exactly once and in order."""
+    from .c09 import labels_in
     model = ctx.model
     cfg = md_config(ctx)
-    rep.rule('R-FILL', 'in the wrapping branch the current line is extended only under a length test against the limit')
+    rep.rule('R-FILL', 'an output line with more than one word was tested against the limit and fits; words are emitted once, in order')
     f = cfg.cls.lookup('fragments_to_lines')
     if f is None:
         raise AnalysisError('anchor vanished: fragments_to_lines')
     f = f[1]
     unit = model.unit_of(f)
     rep.instance('R-FILL')
-    # wrapping loop: the for-loop over make_words(...)
-    loops = [n for n in walk_function(f.node) if isinstance(n, ast.For) and isinstance(n.iter, ast.Call)
-             and isinstance(n.iter.func, ast.Attribute) and n.iter.func.attr == 'make_words']
-    if len(loops) != 1:
-        raise AnalysisError('fragments_to_lines: wrapping loop over make_words not found')
-    loop = loops[0]
-    word = loop.target.id if isinstance(loop.target, ast.Name) else None
-    line_var = None
     n = 0
-    for a in ast.walk(loop):
-        if isinstance(a, ast.Assign) and len(a.targets) == 1 and isinstance(a.targets[0], ast.Name):
-            tgt = a.targets[0].id
-            v = a.value
-            if isinstance(v, ast.Name) and v.id == word or (isinstance(v, ast.Constant) and v.value == ''):
-                line_var = line_var or tgt
-    if line_var is None:
-        raise AnalysisError('fragments_to_lines: current-line variable not found')
-    for a in ast.walk(loop):
-        if isinstance(a, ast.Assign) and any(isinstance(t, ast.Name) and t.id == line_var for t in a.targets):
+    problems = {}
+    multi = 0
+    for words in ('ABC', 'ABCD'):
+        for trace, (kind, lines) in _simulate_fill(ctx, words):
             n += 1
-            v = a.value
-            ok = False
-            why = ''
-            if isinstance(v, ast.Name) and v.id == word:
-                ok, why = True, 'single word'
-            elif isinstance(v, ast.Constant) and v.value == '':
-                ok, why = True, 'empty'
-            else:
-                # must be guarded by len(<v>) <= limit  (v itself or a name bound to it)
-                from .c07 import guards_at
-                vtxt = ast.unparse(v)
-                defs = {x.targets[0].id: ast.unparse(x.value) for x in ast.walk(loop) if isinstance(x, ast.Assign)
-                        and len(x.targets) == 1 and isinstance(x.targets[0], ast.Name)}
-                for test, pol in guards_at(a, f.node):
-                    if isinstance(test, ast.Compare) and len(test.ops) == 1:
-                        l, op, r = test.left, test.ops[0], test.comparators[0]
-                        if isinstance(l, ast.Call) and isinstance(l.func, ast.Name) and l.func.id == 'len' and l.args \
-                                and ast.unparse(l.args[0]) == vtxt and isinstance(r, ast.Name) and r.id == LIMIT:
-                            if (isinstance(op, ast.LtE) and pol) or (isinstance(op, ast.Gt) and not pol):
-                                ok, why = True, 'guarded by len(%s) <= limit' % vtxt
-                            elif (isinstance(op, ast.Lt) and pol) or (isinstance(op, ast.GtE) and not pol):
-                                ok, why = True, 'guarded by len(%s) < limit' % vtxt
-                if ok:
-                    # the guarded value must be current line + separator + word
-                    d = defs.get(vtxt, vtxt)
-                    if not (line_var in d and word in d):
-                        ok, why = False, '%s is not the current line extended by the word' % vtxt
-            rep.obligation('R-FILL', ok, {'assignment': ast.unparse(a), 'why': why})
-            if not ok:
-                rep.find('R-FILL', f.short, 'unguarded:%s' % ast.unparse(a.value)[:40],
-                         'fragments_to_lines sets the current line to %s without testing its length against the limit'
-                         % ast.unparse(a.value), loc(unit, a))
-    rep.floor('R-FILL', n, 3)
+            if kind != 'ok' or not isinstance(lines, list):
+                problems['no-lines'] = 'fragments_to_lines does not yield lines for plain words (%s)' % (lines,)
+                continue
+            order = []
+            for ln in lines:
+                labs = set()
+                labels_in(ln, labs)
+                labs &= set(words)
+                order.extend(sorted(labs))
+                if len(labs) > 1:
+                    multi += 1
+                    if not _fits_decided(trace, labs):
+                        problems['unguarded-fill'] = ('an output line holding the words %s is emitted on a path where its length was '
+                                                      'never found to be within the limit' % sorted(labs))
+            if order != list(words):
+                problems['words'] = 'the words %s come out as %s' % (list(words), order)
+    ok = not problems and n > 0 and multi > 0
+    rep.obligation('R-FILL', ok, {'paths': n, 'multi-word lines checked': multi, 'problems': sorted(problems)})
+    for k, msg in sorted(problems.items()):
+        rep.find('R-FILL', f.short, k, 'fragments_to_lines: %s' % msg, loc(unit, f.node))
+    rep.floor('R-FILL', n, 6)
 
 
 def rule_sentinel(ctx, rep):
+    """The limit's absence is encoded as None, so a value computed from it must never be tested by
+    truthiness (a budget of exactly 0 would turn wrapping off). Decided on the interpretations: every
+    Markdown method that takes the limit is run with the limit symbolic and every truthiness test applied
+    to a value containing it is recorded; the wrapping loop is run with an abstract integer limit and its
+    decisions are inspected for a zero/non-zero test of the limit."""
     model = ctx.model
-    cfg = md_config(ctx)
-    rep.rule('R-SENTINEL', 'the limit (absence encoded as None) is never tested by truthiness')
+    rep.rule('R-SENTINEL', 'no value computed from the limit is tested by truthiness')
     n = 0
-    for name, f in sorted(cfg.cls.methods.items()):
-        if LIMIT not in [a.arg for a in f.node.args.args + f.node.args.kwonlyargs]:
-            continue
-        unit = model.unit_of(f)
-        derived = {LIMIT}
-        # locals that hold a budget derived from the limit
-        for a in walk_function(f.node):
-            if isinstance(a, ast.Assign) and len(a.targets) == 1 and isinstance(a.targets[0], ast.Name):
-                if any(isinstance(x, ast.Name) and x.id in derived for x in ast.walk(a.value)) and \
-                        any(isinstance(x, (ast.BinOp, ast.IfExp)) for x in ast.walk(a.value)):
-                    derived.add(a.targets[0].id)
-        for node in walk_function(f.node):
-            tests = []
-            if isinstance(node, (ast.If, ast.IfExp, ast.While)):
-                tests.append(node.test)
-            elif isinstance(node, ast.BoolOp):
-                tests.extend(node.values)
-            elif isinstance(node, ast.UnaryOp) and isinstance(node.op, ast.Not):
-                tests.append(node.operand)
-            for t in tests:
-                inner = t.operand if isinstance(t, ast.UnaryOp) and isinstance(t.op, ast.Not) else t
-                if isinstance(inner, ast.Name) and inner.id in derived:
-                    n += 1
-                    rep.instance('R-SENTINEL')
-                    rep.obligation('R-SENTINEL', False, {'method': f.short, 'test': ast.unparse(t)})
-                    rep.find('R-SENTINEL', f.short, 'truthiness(%s)' % inner.id,
-                             '%s tests "%s" by truthiness, but the value can be an arithmetic result: a budget of exactly 0 '
-                             '(limit equal to the prefix width) is treated as "no limit" and the line is not wrapped'
-                             % (f.short, ast.unparse(t)), loc(unit, t), witness='MarkdownRenderer(max_line_length=2): "> aaa bbb ccc"')
-        # count explicit None tests as discharged obligations
-        for node in walk_function(f.node):
-            if isinstance(node, ast.Compare) and len(node.ops) == 1 and isinstance(node.ops[0], (ast.Is, ast.IsNot)) \
-                    and isinstance(node.left, ast.Name) and node.left.id in derived:
-                n += 1
-                rep.instance('R-SENTINEL')
-                rep.obligation('R-SENTINEL', True, {'method': f.short, 'test': ast.unparse(node)})
-    rep.floor('R-SENTINEL', n, 3)
+    undecided = []
+    for cfg in [c for c in ctx.configs() if c.label == 'MarkdownRenderer' and c.error is None]:
+        cfg.cls_methods_with_limit = _methods_with_limit(cfg)
+        for name, f in sorted(cfg.cls_methods_with_limit):
+            res = _limit_flow(ctx, cfg, f, Aff.sym(LIMIT))
+            if res[0] == 'error':
+                undecided.append('%s [%s]: %s' % (f.short, cfg.key(), res[1]))
+                continue
+            rep.instance('R-SENTINEL')
+            n += 1
+            tested = sorted({t for r in res[1] for t in r['truth']})
+            rep.obligation('R-SENTINEL', not tested, {'method': f.short, 'config': cfg.key(), 'paths': len(res[1]),
+                                                      'truthiness tests on the limit': tested})
+            for t in tested:
+                rep.find('R-SENTINEL', f.short, 'truthiness(%s)' % t,
+                         '%s tests the value %s by truthiness, but the absence of a limit is encoded as None: a budget of exactly 0 '
+                         '(limit equal to the prefix width) is treated as "no limit" and the line is not wrapped' % (f.short, t),
+                         loc(model.unit_of(f), f.node), witness='MarkdownRenderer(max_line_length=2): "> aaa bbb ccc"')
+    # the wrapping loop, limit an abstract integer
+    f2l = md_config(ctx).cls.lookup('fragments_to_lines')[1]
+    rep.instance('R-SENTINEL')
+    bad = set()
+    paths = 0
+    for trace, (kind, lines) in _simulate_fill(ctx, 'AB'):
+        paths += 1
+        for k, v in trace:
+            if isinstance(k, tuple) and len(k) == 2 and k[0] == 'cond' and isinstance(k[1], tuple) and k[1] and k[1][0] == 'nonzero' \
+                    and 'limit' in repr(k[1]):
+                bad.add(repr(k[1][1]))
+    n += 1
+    rep.obligation('R-SENTINEL', not bad, {'method': f2l.short, 'paths': paths, 'truthiness tests on the limit': sorted(bad)})
+    for t in sorted(bad):
+        rep.find('R-SENTINEL', f2l.short, 'truthiness(limit)', '%s tests the limit by truthiness (%s): a limit of 0 is treated as "no '
+                 'limit"' % (f2l.short, t), loc(model.unit_of(f2l), f2l.node))
+    rep.extra['sentinel_undecided'] = undecided
+    rep.floor('R-SENTINEL', n, 6)
 
 
 def rule_hardbreak(ctx, rep):
